@@ -144,3 +144,39 @@ CHECKS["C09"] = dict(
  text="For every function of every program of the corpus (control-flow skeletons shared with C01: depth <= 2 shapes, module / recursion variants, pairs of compounds, single deviations of all loop shapes with break / continue, spines to nesting depth 4 quick / all C01 layers thorough; the repository's examples; generated programs of the other checks) the instruction list loaded by the interpreter (hook H3) is explored as the machine (ip, stack of open block frames, set of possible operand-stack depths) with both outcomes of every conditional instruction (if, while_loop, jmp_not_nil, store_skip). Invariants: jump targets inside the function; done / jmp_pop never pop more block frames than are open; the frame stack at an instruction is the same on every path (no accumulation across loop iterations); some operand shape satisfies every instruction; ret_mod and fall-through leave no block frame open. Every program is also executed and its trace (function, ip, opcode, frame depth, operand depth per instruction) must be a path of the explored model with depths inside the model's sets; the exit-time stack check must agree. Quick: ~11 000 programs, ~7 M model states, ~11 M traced instructions validated.",
  note="Opcode semantics table transcribed once from bytecode/src/instruction.rs and validated by the traces on the unchanged tree (a trace outside the model on the unchanged tree would be a machinery error). A call yields 0 or 1 operand (result arity is not tracked).",
  design_ref="DESIGN.md section 4, C09")
+
+# ---- additions made after round-2 seeding (kept as appended sentences so that the original descriptions stay readable) ----
+CHECKS["C01"]["text"] += (" Conditions range over 15 forms (comparisons, !, &&, ||, >=, !=, string ==, a logging call, and two mixed &&/|| forms whose grouping"
+                          " is left to the precedence table); loop steps over constant / variable / expression / call; leaves include a path store as the first"
+                          " statement of its block and a function defined and called inside the block; all single deviations of depth-<=1 shapes (thorough: depth <= 2)"
+                          " are also rendered with minimal parentheses.")
+CHECKS["C02"]["text"] += (" 18 type representatives incl. two function types whose value is called in every typed position; (d) a catalogue of boundary cases of"
+                          " typing rules (element pointers in list literals, boxed optionals from built-ins as operands, fixed-shape lists, from-loop counters of every kind).")
+CHECKS["C03"]["text"] += (" The catalogue now has 101 edits plus three systematic families: unknown name = {fresh identifier, every identifier-shaped word of grammar.pest}"
+                          " x 12 expression positions; non-index = 4 container kinds x 13 wrong-kind index expressions (literal / variable / non-constant) x read / store /"
+                          " op-assignment; function-type, fixed-list-shape, unpack, class-member and out-of-range-literal edits.")
+CHECKS["C04"]["text"] += (" The alphabet also holds NBSP, VT and a 4-byte scalar; 10 directory spellings for the path given on the command line; and a stale-output layer:"
+                          " 7 programs of different compiled lengths (with / without an imported module), every revision compiled or run in a directory that already holds the"
+                          " outputs of every other revision (4 command sequences), compared with a fresh directory.")
+CHECKS["C06"]["text"] += (" Also 34 alternative literal spellings (hexadecimal, digit separators, leading zeros, f suffix, B-prefixed hexadecimal) alone, negated, in a list and as"
+                          " either operand of every operator - folded in that spelling, unfolded over variables holding the canonical literal; and the most negative int / bigint"
+                          " values (-(MAX) - 1) against 14 partners on both sides of every operator, plus all negative-negative pairs.")
+CHECKS["C07"]["text"] += (" The site matrix is repeated with the site preceded, inside the closure, by a shadowing local / a plain self-assignment / a modify / a block-local shadow of"
+                          " the captured name; a third family has the closure return an inner closure (read / modify / created in a block / two levels) that is called only after its"
+                          " creator returned, from two executions, interleaved. After every history the implementation's state is read back through the template's observer expressions.")
+CHECKS["C08"]["text"] += (" List-valued field stores (share another object's list, fresh empty list, clone of itself) are part of the alphabet; state identity includes model-side"
+                          " container identity; after every history the implementation's state is read back through all observer expressions.")
+CHECKS["C11"]["text"] += (" Further import forms `import type T from m` and `import type T, a, b from m` (every module exports a type alias) and leaf modules that export nothing.")
+CHECKS["C14"]["text"] += (" Repetition counts: int and bigint on either side of `*`, negative, and bigint counts around 2^64, 2^65, +-2^127. parse_int / parse_bigint read decimal"
+                          " digits or, after 0x, hexadecimal digits.")
+CHECKS["C15"]["text"] += (" Binary nodes cover every binary operator of the grammar. Variable-leaf layers: bare reads of a module variable (int / bool) next to logging calls that modify"
+                          " and return it, at every operand position (depth 1 all contexts, depth 2 rule 1, thorough depth-3 spines). Precedence layers: every ordered pair (thorough:"
+                          " triple) of directly nested operator-syntax nodes rendered with minimal parentheses. Eight trees share one program run; a group that differs is re-run tree by tree.")
+CHECKS["C16"]["text"] += (" (d) lexical boundaries: ~125 spellings at the limits of every literal rule (decimal / hexadecimal / B / binary / float / string / identifier; widths 8, 32, 64, 128"
+                          " bits and beyond, malformed separators, escapes, stray characters) x 39 positions that treat a literal specially; quick tier also all k <= 4 derivations of"
+                          " `value` inside a method.")
+CHECKS["C16"]["note"] = ("Crash sites found on the pinned tree were repaired (see known_findings.json, fixed entries); four remain listed as known findings (stack depth, exponential"
+                         " nested list type, two panic sites seen only in the thorough tier). Arbitrary byte soup is not covered.")
+CHECKS["C19"]["text"] += (" All sequences of 2 (thorough 3) foreign calls over {library A, library B with the same symbols, missing library} x 5 functions; every call position {last"
+                          " instruction of the entry function, tail of a helper, helper storing the result, helper called twice, map callback, filter callback, result popped, result"
+                          " stored} x {echo, last, fail, missing library, missing symbol}.")
